@@ -12,6 +12,10 @@ P = {
   "Lean theorems over a model of the import tracker and the raw namer (adds_inv: after any sequence the two tables are inverse bijections, for any candidate function; add_stable; add_binds + add_valid + cfgF_ok: the repaired tracker — candidates filtered by token.IsIdentifier, numbered fallback, termination by a pigeonhole lemma — always binds a valid non-keyword identifier; imports_exact over the writer token model; std_reserved; kernel-evaluated facts about the std table regenerated from std.list), tied to the code by a differential run of the compiled model (camel-case model, candidate names, std table folded from the regenerated list) against NewRawNamer/NewDefaultImportTracker on path sequences and judged by an independent oracle (Go's token.IsIdentifier, uniqueness, the assembled file parsed with go/parser: imports = used qualifiers).",
   "Trusted: Lean kernel; ASCII import paths (module.CheckImportPath alphabet) in the model of toLocalName; strings.ToLower∘cases.Title on ASCII as ASCII lower-casing; reference kinds that go through the type printer (named, generic, literal) are oracle-only in this check (their model is C11's); the correspondence is a sample.",
   "Lean 4 proof (invariant by induction over add sequences, pigeonhole for the fallback, kernel evaluation of the regenerated std table) + correspondence + independent oracle", "6 C03"),
+ "C12": (True,
+  "Lean theorems over models of tag extraction and of the comment index (classify_once, tag_iff, splitKV_spec, others_spec for every line list and marker set; doc_correct / docOf_correct: for every layout of blank lines, comment groups and one- or multi-line declarations with or without trailing comments, every declaration gets exactly the tag extraction of the group ending directly above it and its own trailing comment, never the previous line's trailing comment — for the repaired index, via build_frame), tied to the code by ExtractCommentTags on random line lists vs. the model and an independent re-statement, and by rendering layouts to Go text (struct fields incl. multi-name, grouped/ungrouped type/const/var, line and block comments, detached groups, tag lines, go: prose), loading them with the real types.Load and comparing Doc/Comment of every declared name with the model and with the layout's own ground truth (random layouts plus the complete enumeration of ≤ 3 consecutive declarations × {none, doc, detached} × {trailing or not}).",
+  "Trusted: Lean kernel; go/parser's attachment of Doc/Comment groups to declarations as the documented rule (a group ending on the line before a declaration is its Doc; a comment starting on a declaration's last line is its Comment; unattached groups are not visited by ast.Inspect); ast.CommentGroup.Text() as the source of lines (the harness uses payloads Text() returns unchanged); the `go:` filter of commentLinesFrom is part of the model (O11); default markers regenerated from the source.",
+  "Lean 4 proof (frame lemma over the index, induction over the layout) + correspondence on the real loader + ground-truth oracle", "6 C12"),
  "C15": (True,
   "Lean theorems over a model of ParseTypeRef / TypeRef.String / ParseRef / PkgImportPathAndExpose / rawNamer.processName (parse_print: every well-formed reference of any depth and width parses back to itself with the depth-counter scanner; splitRef_agree; rewrite_shape, rewrite_bound, rewrite_final_names: the namer's rewrite changes only package paths, registers exactly the foreign packages and every node carries the name any later extension of the table gives its package), tied to the code by a differential run against ParseTypeRef, ParseRef, PkgImportPathAndExpose and snippet.ID(string) rendered through a real writer (random trees, grammar enumeration, malformed strings for agreement only), with the tree the string was printed from as ground truth.",
   "Trusted: Lean kernel; references whose head has a package path (a TypeName always has a package) for the naming-system clause; the tracker's names themselves are C03's subject; the correspondence is a sample.",
